@@ -5049,6 +5049,46 @@ _trait_setstate(trait_object *trait, PyObject *args)
         return NULL;
     }
 
+    /* A validated property keeps its (five argument) property setter in the
+       'post_setattr' slot, and 'setattr_validate_property' is the only
+       caller that invokes the slot that way: the two must go together. */
+    if (setattr_handlers[setattr_index] == setattr_validate_property) {
+        if (post_setattr_index > 3) {
+            PyErr_SetString(
+                PyExc_ValueError,
+                "Invalid trait state: a validated property needs a property "
+                "setter.");
+            return NULL;
+        }
+    }
+    else if (post_setattr_index < 4) {
+        PyErr_SetString(
+            PyExc_ValueError,
+            "Invalid trait state: a property setter is only valid for a "
+            "validated property.");
+        return NULL;
+    }
+
+    /* The same validation as in '_trait_set_default_value': just enough to
+       keep 'default_value_for' from reading out of bounds. */
+    if ((default_value_type < 0)
+        || (default_value_type > MAXIMUM_DEFAULT_VALUE_TYPE)) {
+        PyErr_SetString(
+            PyExc_ValueError, "Invalid trait state: unknown default value type.");
+        return NULL;
+    }
+    if (default_value_type == CALLABLE_AND_ARGS_DEFAULT_VALUE) {
+        if (!PyTuple_Check(default_value)
+            || PyTuple_GET_SIZE(default_value) != 3) {
+            PyErr_SetString(
+                PyExc_ValueError,
+                "Invalid trait state: the default value for type "
+                "DefaultValue.callable_and_args must be a tuple of the form "
+                "(callable, args, kwds).");
+            return NULL;
+        }
+    }
+
     /*
        Backwards compatibility hack for old pickles. Versions of Traits
        prior to 6.0 replaced callables with a long value (-1).
@@ -5182,6 +5222,15 @@ set_trait_post_setattr(trait_object *trait, PyObject *value, void *closure)
     if (value != Py_None && !PyCallable_Check(value)) {
         PyErr_SetString(
             PyExc_ValueError, "The assigned value must be callable or None.");
+        return -1;
+    }
+
+    /* A validated property keeps its property setter in the 'post_setattr'
+       slot (see '_trait_set_property'): it has no post_setattr hook. */
+    if (trait->setattr == setattr_validate_property) {
+        PyErr_SetString(
+            PyExc_ValueError,
+            "A validated property trait does not support 'post_setattr'.");
         return -1;
     }
 
